@@ -425,7 +425,7 @@ def dig(t):
 
 
 def expect_unchanged(ctx, t, before, sig):
-    dd = digest.digest_diff(before, dig(t))
+    dd = digest.parameter_mutation(before, dig(t))
     return ctx.expect(dd is None, sig, lambda: repr(dd))
 
 
